@@ -2461,8 +2461,8 @@ def _one_info_ExceptHandler_name(self: fst.FST, static: onestatic, idx: int | No
     else:
         lines = self.root._lines
         ln, col = next_find(lines, ln, col, end_ln, end_col, 'as')  # skip the 'as'
-        ln, col = next_find(lines, ln, col + 2, end_ln, end_col, name)  # must be there
-        loc_prim = fstloc(ln, col, ln, col + len(name))
+        ln, col, src = next_find_re(lines, ln, col + 2, end_ln, end_col, re_identifier)  # must be there, search by pattern and not by name because source may not be NFKC normalized
+        loc_prim = fstloc(ln, col, ln, col + len(src))
 
     return oneinfo(' as ', loc_insdel, loc_prim)
 
@@ -2568,7 +2568,7 @@ def _one_info_arguments_kw_defaults(self: fst.FST, static: onestatic, idx: int |
 
     else:
         ln, col, _, _ = arg.f.loc
-        col += len(arg.arg)
+        col = re_identifier.match(self.root._lines[ln], col).end()  # must be there, not len(arg.arg) because source may not be NFKC normalized
         prefix = '='
 
     if default := self.a.kw_defaults[idx]:
@@ -2640,7 +2640,10 @@ def _one_info_arguments_kwarg(self: fst.FST, static: onestatic, idx: int | None,
     return oneinfo(', **', fstloc(ln, col, end_ln, end_col))
 
 def _one_info_arg_annotation(self: fst.FST, static: onestatic, idx: int | None, field: str) -> oneinfo:
-    return oneinfo(': ', fstloc((loc := self.loc).ln, loc.col + len(self.a.arg), self.end_ln, self.end_col))
+    ln, col, end_ln, end_col = self.loc
+    col = re_identifier.match(self.root._lines[ln], col).end()  # must be there, not len(arg) because source may not be NFKC normalized
+
+    return oneinfo(': ', fstloc(ln, col, end_ln, end_col))
 
 def _one_info_keyword_arg(self: fst.FST, static: onestatic, idx: int | None, field: str) -> oneinfo:
     ast = self.a
@@ -2653,7 +2656,8 @@ def _one_info_keyword_arg(self: fst.FST, static: onestatic, idx: int | None, fie
 def _one_info_alias_asname(self: fst.FST, static: onestatic, idx: int | None, field: str) -> oneinfo:
     ast = self.a
     ln, col, end_ln, end_col = self.loc
-    loc_insdel = fstloc(ln, col + len(ast.name), end_ln, end_col)
+    name_end_col = re_identifier_alias.match(self.root._lines[ln], col).end()  # must be there, not len(name) because source may not be NFKC normalized
+    loc_insdel = fstloc(ln, name_end_col, end_ln, end_col)
 
     if (asname := ast.asname) is None:
         loc_prim = None
@@ -2697,8 +2701,9 @@ def _one_info_MatchMapping_rest(self: fst.FST, static: onestatic, idx: int | Non
     if (rest := ast.rest) is None:
         loc_prim = None
     else:
-        rest_ln, rest_col = next_find(self.root._lines, ln, col, end_ln, end_col, rest)
-        loc_prim = fstloc(rest_ln, rest_col, rest_ln, rest_col + len(rest))
+        rest_ln, rest_col = next_find(self.root._lines, ln, col, end_ln, end_col, '**')  # must be there
+        rest_ln, rest_col, src = next_find_re(self.root._lines, rest_ln, rest_col + 2, end_ln, end_col, re_identifier)  # must be there, search by pattern and not by name because source may not be NFKC normalized
+        loc_prim = fstloc(rest_ln, rest_col, rest_ln, rest_col + len(src))
 
     return oneinfo(prefix, fstloc(ln, col, end_ln, end_col), loc_prim)
 
@@ -2741,7 +2746,7 @@ def _one_info_MatchAs_pattern(self: fst.FST, static: onestatic, idx: int | None,
 
     lines = self.root._lines
     as_ln, as_col = next_find(lines, *pattern.f.pars()[2:], end_ln, end_col, 'as')  # skip the 'as'
-    end_ln, end_col = next_find(lines, as_ln, as_col + 2, end_ln, end_col, name)
+    end_ln, end_col, _ = next_find_re(lines, as_ln, as_col + 2, end_ln, end_col, re_identifier)  # must be there, search by pattern and not by name because source may not be NFKC normalized
 
     return oneinfo('', fstloc(ln, col, end_ln, end_col))
 
@@ -2756,13 +2761,13 @@ def _one_info_MatchAs_name(self: fst.FST, static: onestatic, idx: int | None, fi
         prefix = 'as'
         lines = self.root._lines
         ln, col = next_find(lines, *pattern.f.pars()[2:], end_ln, end_col, 'as')  # skip the 'as'
-        ln, col = next_find(lines, ln, col + 2, end_ln, end_col, ast.name or '_')
+        ln, col, _ = next_find_re(lines, ln, col + 2, end_ln, end_col, re_identifier)  # must be there (name or '_'), search by pattern because source may not be NFKC normalized
 
     return oneinfo(prefix, None, fstloc(ln, col, ln, end_col))
 
 def _one_info_TypeVar_bound(self: fst.FST, static: onestatic, idx: int | None, field: str) -> oneinfo:
     ln = self.ln
-    col = self.col + len(self.a.name)
+    col = re_identifier.match(self.root._lines[ln], self.col).end()  # must be there, not len(name) because source may not be NFKC normalized
 
     if bound := self.a.bound:
         _, _, end_ln, end_col = bound.f.pars()
@@ -2777,7 +2782,7 @@ def _one_info_TypeVar_default_value(self: fst.FST, static: onestatic, idx: int |
         _, _, ln, col = bound.f.pars()
     else:
         ln = self.ln
-        col = self.col + len(self.a.name)
+        col = re_identifier.match(self.root._lines[ln], self.col).end()  # must be there, not len(name) because source may not be NFKC normalized
 
     return oneinfo(' = ', fstloc(ln, col, self.end_ln, self.end_col))
 
